@@ -22,6 +22,8 @@ import (
 	"sync"
 	"sync/atomic"
 
+	"k8s.io/apimachinery/pkg/apis/meta/v1/unstructured"
+
 	v1 "github.com/crossplane/crossplane/apis/pkg/v1"
 	"github.com/crossplane/crossplane/verifh/kit"
 	"github.com/crossplane/crossplane/verifh/sim"
@@ -225,7 +227,9 @@ func genSeq(r *rand.Rand, thorough bool) seqCase {
 	if sc.Blocker == "otherpkg" && r.IntN(2) == 0 {
 		sc.KillOtherRev = 2 + r.IntN(8)
 	}
-	if thorough && r.IntN(2) == 0 {
+	_ = thorough
+	if r.IntN(2) == 0 {
+		// roll forward again after the rollback
 		sc.Third = r.IntN(len(programs))
 	}
 	return sc
@@ -417,6 +421,52 @@ func enumerate(c *kit.Ctx, base *exec, prefix, fp string, nontrivial bool, op fu
 	}
 }
 
+// enumerateIntruder lets a third party delete one of the objects the revision ships right
+// before call idx of op, for every idx (e.g. between the dry-run validation of an object and
+// its real update), then retries op. The verdict comes from the monitors alone: whatever the
+// establisher sees vanish, an inactive revision creates nothing and controls nothing.
+func enumerateIntruder(c *kit.Ctx, base *exec, prefix, fp, rev string, op func(x *exec) opResult) {
+	probe := base.fork(prefix + "/intruder-probe")
+	r0 := op(probe)
+	var victims []sim.Key
+	for _, s := range base.revs[rev].Specs {
+		if base.w.GetObj(s.key()) != nil {
+			victims = append(victims, s.key())
+		}
+	}
+	if len(victims) == 0 {
+		return
+	}
+	for idx := 0; idx <= r0.calls; idx++ {
+		name := fmt.Sprintf("%s/intruder-%d", prefix, idx)
+		if !c.Want(name) {
+			continue
+		}
+		x := base.fork(name)
+		victim := victims[idx%len(victims)]
+		done := false
+		third := x.w.Client("third-party")
+		x.cl.OnCall = func(i int, _ string) {
+			if i == idx && !done {
+				done = true
+				if o := x.w.GetObj(victim); o != nil {
+					_ = third.Delete(bg, &unstructured.Unstructured{Object: o})
+				}
+			}
+		}
+		x.ops = append(x.ops, fmt.Sprintf("a third party deletes %s right before call %d of the next op", victim, idx))
+		x.intruded = true
+		_ = op(x)
+		x.intruded = false
+		x.cl.OnCall = nil
+		x.gc()
+		_ = op(x)
+		x.count("intruder_runs", 1)
+		c.Eval(fmt.Sprintf("intruder|%s|%d", fp, idx), done)
+		x.flush()
+	}
+}
+
 func runFaultSingle(c *kit.Ctx, i int) {
 	prefix := fmt.Sprintf("fault/%d", i)
 	if !wantUnder(c, prefix) {
@@ -427,6 +477,7 @@ func runFaultSingle(c *kit.Ctx, i int) {
 	base := sc.prepare(c, prefix, uint64(c.Seed)*3_000_017+uint64(i))
 	base.flush()
 	enumerate(c, base, prefix, "single|"+kit.JSON(sc), sc.nontrivial(), func(x *exec) opResult { return x.establish("pk-r1", sc.Control) })
+	enumerateIntruder(c, base, prefix, "single|"+kit.JSON(sc), "pk-r1", func(x *exec) opResult { return x.establish("pk-r1", sc.Control) })
 }
 
 // runFaultSeq enumerates faults in the three calls of an upgrade: the deactivation of rev1,
@@ -454,6 +505,7 @@ func runFaultSeq(c *kit.Ctx, i int) {
 	lost := x.fork(prefix + "/I")
 	lost.loseStatus("pk-r1")
 	enumerate(c, lost, prefix+"/I", fp+"|I", true, func(x *exec) opResult { return x.establish("pk-r1", false) })
+	enumerateIntruder(c, lost, prefix+"/I", fp+"|I", "pk-r1", func(x *exec) opResult { return x.establish("pk-r1", false) })
 	rel := x.fork(prefix + "/DA")
 	if r := rel.release("pk-r1"); r.err == nil {
 		rel.gc()
